@@ -49,6 +49,48 @@ def install_stubs():
     for _f in (cattrs.gen.make_dict_structure_fn, cattrs.gen.make_dict_unstructure_fn):
         _cc._PATCH_REGISTRATIONS[_f] = _untraced(_f)
 
+    # (5) int(symbolic float): CrossHair's int() realises every non-str symbolic argument although its symbolic floats
+    # implement __int__ (truncation toward zero as a z3 term).  Use that, so `int(o['line'])` in cattrs' generated code
+    # and in hand-written hooks stays symbolic for JSON numbers that arrive as floats.
+    # Layered on top of CrossHair's own int() patch (its inner int() calls must keep reaching the builtin, so the
+    # registration table is left alone and the extra layer is pushed whenever the patches are activated).
+    def _int_keep_float(*a, **kw):
+        if len(a) == 1 and not kw:
+            with NoTracing():
+                symf = isinstance(a[0], _bl.SymbolicFloat)
+            if symf:
+                return a[0].__int__()
+        return int(*a, **kw)
+
+    _extra = {int: _int_keep_float}
+    _enter, _exit = _cc.Patched.__enter__, _cc.Patched.__exit__
+
+    def _patched_enter(self):
+        r = _enter(self)
+        _cc.COMPOSITE_TRACER.patching_module.add(_extra)
+        return r
+
+    def _patched_exit(self, *exc):
+        _cc.COMPOSITE_TRACER.patching_module.pop(_extra)
+        return _exit(self, *exc)
+
+    _cc.Patched.__enter__, _cc.Patched.__exit__ = _patched_enter, _patched_exit
+
+    # (6) opt-in (VERIF_REAL_FLOATS=1, set by the checks that say so in their evidence): a symbolic float is a finite
+    # real (z3 Real) or one of nan / inf / -inf; CrossHair's second, IEEE-754 bit-precise representation (chosen with
+    # probability 0.02, and never exhausted because z3's FP theory times out on truncation) is switched off.  Sound for
+    # code that only compares and truncates the value: every double is a real.
+    if os.environ.get("VERIF_REAL_FLOATS") == "1":
+        _bl._PYTYPE_TO_WRAPPER_TYPE[float] = ((_bl.RealBasedSymbolicFloat, 1.0),)
+
+        # CrossHair caps every path that touches a real-based float at "unknown" because real arithmetic is not IEEE
+        # arithmetic.  The lemmas that opt in perform no float arithmetic on the value under test (isinstance, ordering
+        # comparisons with ints, int(), is_integer() only - all exact on reals), so the cap is lifted for them.
+        def _init_no_cap(self, smtvar, typ=float):
+            _bl.SymbolicValue.__init__(self, smtvar, typ)
+
+        _bl.RealBasedSymbolicFloat.__init__ = _init_no_cap
+
     # (4) functools.lru_cache: CrossHair calls the wrapped function and skips the cache, i.e. it assumes the function is
     # pure and the key exact.  For caches defined in the code under test that assumption is the thing to be checked
     # (a verdict memoised under a key that identifies 1, 1.0 and True; a result that depends on an earlier call), so
